@@ -170,13 +170,13 @@ with after (n : nat) (l : lvl) (pc : bool) (e : expr) (ts : list tok) {struct n}
         | TPipe :: _ => p_lv n LCond false (Some e) ts
         | _ => POk (e, ts)
         end
-    | LCond =>                          (* _cond: both branches are parsed with p.expr() *)
+    | LCond =>                          (* _cond(higher, branch): branch = expr / printExpr, as the tower *)
         match ts with
         | TQuestion :: r =>
-            dop (t, ts1) <- p_lv n LExpr false None (skip_nl r);
+            dop (t, ts1) <- p_lv n LExpr pc None (skip_nl r);
             match ts1 with
             | TColon :: r2 =>
-                dop (f, ts2) <- p_lv n LExpr false None (skip_nl r2);
+                dop (f, ts2) <- p_lv n LExpr pc None (skip_nl r2);
                 POk (ECond e t f, ts2)
             | _ => PErr
             end
